@@ -9,8 +9,9 @@ Arguments Nat.sub : simpl never.
 Arguments from : simpl never.
 Arguments tag : simpl never.
 Arguments by_key : simpl never.
-Arguments mem : simpl never.
-Arguments remove_id : simpl never.
+Arguments iter_of : simpl never.
+Arguments drop_iter : simpl never.
+Arguments busy : simpl never.
 
 (* ------------------------------------------------------------------ small list facts *)
 
@@ -41,15 +42,81 @@ Proof. induction a as [|e a IH]; cbn; [reflexivity|]. destruct e; cbn; rewrite ?
 Lemma entry_keys_app a b : entry_keys (a ++ b) = entry_keys a ++ entry_keys b.
 Proof. induction a as [|e a IH]; cbn; [reflexivity|]. destruct e; cbn; rewrite ?IH; reflexivity. Qed.
 
+(* ---- the table of receivers inside ForIter *)
+
+Lemma iter_of_cons_same {j x} l : iter_of j ((j, x) :: l) = Some x.
+Proof. unfold iter_of, is_key. cbn. rewrite Nat.eqb_refl. reflexivity. Qed.
+
+Lemma iter_of_cons_other {j k x} l : k <> j -> iter_of j ((k, x) :: l) = iter_of j l.
+Proof. intros H. unfold iter_of, is_key. cbn. destruct (Nat.eqb k j) eqn:E; [apply Nat.eqb_eq in E; contradiction|reflexivity]. Qed.
+
+Lemma iter_of_nil j : iter_of j [] = None.
+Proof. reflexivity. Qed.
+
+Lemma iter_of_drop_same j l : iter_of j (drop_iter j l) = None.
+Proof.
+  unfold iter_of, drop_iter, is_key. induction l as [|(k, x) l IH]; cbn; [reflexivity|].
+  destruct (Nat.eqb k j) eqn:E; cbn; [exact IH|]. rewrite E. exact IH.
+Qed.
+
+Lemma iter_of_drop_other j k l : k <> j -> iter_of j (drop_iter k l) = iter_of j l.
+Proof.
+  intros H. unfold iter_of, drop_iter, is_key. induction l as [|(q, x) l IH]; cbn; [reflexivity|].
+  destruct (Nat.eqb q k) eqn:E; cbn.
+  - apply Nat.eqb_eq in E. subst q. destruct (Nat.eqb k j) eqn:E2; [apply Nat.eqb_eq in E2; contradiction|exact IH].
+  - destruct (Nat.eqb q j); [reflexivity|exact IH].
+Qed.
+
+Lemma iter_of_some_in j l x : iter_of j l = Some x -> In (j, x) l.
+Proof.
+  unfold iter_of, is_key. induction l as [|(k, y) l IH]; cbn; [discriminate|].
+  destruct (Nat.eqb k j) eqn:E; cbn.
+  - apply Nat.eqb_eq in E. subst. intros [= <-]. left. reflexivity.
+  - intros H. right. apply IH. exact H.
+Qed.
+
+Lemma iter_of_none_notin j l : iter_of j l = None -> ~ In j (map fst l).
+Proof.
+  unfold iter_of, is_key. induction l as [|(k, y) l IH]; cbn; [intros _ []|].
+  destruct (Nat.eqb k j) eqn:E; cbn; [discriminate|]. intros H [->|Hin]; [rewrite Nat.eqb_refl in E; discriminate|].
+  apply IH; assumption.
+Qed.
+
+Lemma drop_iter_in j l p : In p (drop_iter j l) -> In p l /\ fst p <> j.
+Proof.
+  unfold drop_iter, is_key. intros H. apply filter_In in H. destruct H as (H1 & H2). split; [exact H1|].
+  intros E. rewrite E, Nat.eqb_refl in H2. discriminate.
+Qed.
+
+Lemma nodup_keys_filter {A} (f : nat * A -> bool) l : NoDup (map fst l) -> NoDup (map fst (filter f l)).
+Proof.
+  induction l as [|x l IH]; cbn; intros N; [constructor|]. inversion N as [|? ? Hx Nl]; subst.
+  destruct (f x); cbn; [|apply IH; exact Nl]. constructor; [|apply IH; exact Nl].
+  intros Hin. apply Hx. apply in_map_iff in Hin. destruct Hin as (y & Ey & Hy). apply filter_In in Hy.
+  apply in_map_iff. exists y. split; [exact Ey|apply Hy].
+Qed.
+
+Lemma drop_iter_length j l x : NoDup (map fst l) -> iter_of j l = Some x -> S (length (drop_iter j l)) = length l.
+Proof.
+  unfold iter_of, drop_iter, is_key. induction l as [|(k, y) l IH]; cbn; intros N H; [discriminate|].
+  inversion N as [|? ? Hk Nl]; subst. destruct (Nat.eqb k j) eqn:E; cbn.
+  - apply Nat.eqb_eq in E. subst k. f_equal.
+    assert (Hn : ~ In j (map fst l)) by exact Hk. clear -Hn.
+    induction l as [|(q, z) l IH]; cbn; [reflexivity|]. destruct (Nat.eqb q j) eqn:E; cbn.
+    + apply Nat.eqb_eq in E. subst. exfalso. apply Hn. left. reflexivity.
+    + f_equal. apply IH. intros H. apply Hn. right. exact H.
+  - f_equal. apply IH; assumption.
+Qed.
+
+Lemma busy_false j s : busy j s = false <-> iter_of j (iters s) = None.
+Proof. unfold busy. destruct (iter_of j (iters s)); split; congruence. Qed.
+
 Lemma mem_true j l : mem j l = true <-> In j l.
 Proof.
   unfold mem. rewrite existsb_exists. split.
   - intros (x & Hx & E). apply Nat.eqb_eq in E. subst. exact Hx.
   - intros H. exists j. split; [exact H|apply Nat.eqb_refl].
 Qed.
-
-Lemma mem_false j l : mem j l = false <-> ~ In j l.
-Proof. rewrite <- mem_true. destruct (mem j l); split; congruence. Qed.
 
 (* ------------------------------------------------------------------ runs with their events *)
 
@@ -99,16 +166,27 @@ Proof.
   - destruct (step s a) as [(s1, e)|] eqn:E; [|discriminate]. eapply IH; [|exact R]. eapply Hs; eassumption.
 Qed.
 
-Ltac step_cases H :=
+(* case analysis of a successful step: one goal per way a step can succeed *)
+Ltac destr_step H :=
+  cbn in H;
   repeat match type of H with
-         | context [match ?x with _ => _ end] => destruct x eqn:?; try discriminate
-         end; injection H as <- <-.
+  | context [match todo ?s ?i with _ => _ end] => destruct (todo s i) eqn:?
+  | context [if busy ?j ?s then _ else _] => destruct (busy j s) eqn:?
+  | context [match buf ?s with _ => _ end] => destruct (buf s) eqn:?
+  | context [match iter_of ?j ?l with _ => _ end] => destruct (iter_of j l) as [[[] ?]|] eqn:?
+  | context [if closed ?s then _ else _] => destruct (closed s) eqn:?
+  | context [if room ?s then _ else _] => destruct (room s) eqn:?
+  | context [match last ?s with _ => _ end] => destruct (last s) eqn:?
+  | context [if cancelled ?s && _ then _ else _] => destruct (cancelled s) eqn:?; cbn in H
+  | context [if negb (busy ?j ?s) then _ else _] => destruct (busy j s) eqn:?; cbn in H
+  | context [if cancelled ?s then _ else _] => destruct (cancelled s) eqn:?
+  end; try discriminate; injection H as <- <-.
 
 (* ------------------------------------------------------------------ 1. the channel is FIFO and loses nothing *)
 
 (* per sender: what the channel has released, then what is queued, then what is still to be sent,
    is that sender's program, in order *)
-Definition Inv (prog : nat -> list val) (s : st) : Prop :=
+Definition Inv (prog : nat -> list N) (s : st) : Prop :=
   forall i, from i (map snd (deq s) ++ buf s) ++ tag i (todo s i) = tag i (prog i).
 
 Lemma inv_init c prog : Inv prog (init c prog).
@@ -116,34 +194,21 @@ Proof. intros i. reflexivity. Qed.
 
 Lemma inv_step prog s a s' e : Inv prog s -> step s a = Some (s', e) -> Inv prog s'.
 Proof.
-  intros I H. destruct a as [i|j|j|j|k| |i|j|j]; cbn in H.
+  intros I H. destruct a as [i|j|j|j|j|j|k| |i|j|j]; destr_step H;
+    try (intros k0; specialize (I k0); cbn in *; exact I).
   - (* Send *)
-    destruct (todo s i) as [|v r] eqn:E; [discriminate|].
-    destruct (closed s); [injection H as <- <-; exact I|].
-    destruct (room s); [|discriminate]. injection H as <- <-.
     intros k. cbn. unfold upd. specialize (I k). rewrite app_assoc, from_app.
     destruct (Nat.eqb k i) eqn:Ek.
-    + apply Nat.eqb_eq in Ek. subst k. rewrite E, tag_cons in I.
+    + apply Nat.eqb_eq in Ek. subst k.
+      match goal with E : todo s i = _ |- _ => rewrite E, tag_cons in I end.
       rewrite from_one_same, <- app_assoc. exact I.
     + apply Nat.eqb_neq in Ek. rewrite from_one_other by congruence. rewrite app_nil_r. exact I.
   - (* Recv *)
-    destruct (mem j (pending s)); [discriminate|].
-    destruct (buf s) as [|m r] eqn:E.
-    + destruct (closed s); [|discriminate]. injection H as <- <-. intros k. cbn. rewrite E. specialize (I k). rewrite E in I. exact I.
-    + injection H as <- <-. intros k. cbn. specialize (I k). rewrite E in I.
-      rewrite map_app. cbn [map snd]. rewrite <- app_assoc. exact I.
+    intros k. cbn. specialize (I k). match goal with E : buf s = _ |- _ => rewrite E in I end.
+    rewrite map_app. cbn [map snd]. rewrite <- app_assoc. exact I.
   - (* Next *)
-    destruct (mem j (pending s)); [discriminate|].
-    destruct (buf s) as [|m r] eqn:E.
-    + destruct (closed s); [|discriminate]. injection H as <- <-. intros k. cbn. rewrite E. specialize (I k). rewrite E in I. exact I.
-    + injection H as <- <-. intros k. cbn. specialize (I k). rewrite E in I.
-      rewrite map_app. cbn [map snd]. rewrite <- app_assoc. exact I.
-  - destruct (mem j (pending s)); [|discriminate]. destruct (last s); [|discriminate]. injection H as <- <-. exact I.
-  - injection H as <- <-. exact I.
-  - injection H as <- <-. exact I.
-  - destruct (cancelled s); [|discriminate]. destruct (todo s i); [discriminate|]. injection H as <- <-. exact I.
-  - destruct (cancelled s && negb (mem j (pending s))); [|discriminate]. injection H as <- <-. exact I.
-  - destruct (cancelled s && negb (mem j (pending s))); [|discriminate]. injection H as <- <-. exact I.
+    intros k. cbn. specialize (I k). match goal with E : buf s = _ |- _ => rewrite E in I end.
+    rewrite map_app. cbn [map snd]. rewrite <- app_assoc. exact I.
 Qed.
 
 Theorem fifo_all_schedules prog c sch s : run (init c prog) sch = Some s -> Inv prog s.
@@ -151,66 +216,77 @@ Proof. apply (run_invariant (Inv prog)); [apply inv_step|apply inv_init]. Qed.
 
 (* ------------------------------------------------------------------ 2. what holds of the iteration protocol under EVERY schedule *)
 
-Lemma remove_id_length j l : NoDup l -> In j l -> S (length (remove_id j l)) = length l.
-Proof.
-  unfold remove_id. induction l as [|x l IH]; intros N I; [contradiction|].
-  inversion N as [|? ? Hx Nl]; subst. cbn. destruct (Nat.eqb x j) eqn:E; cbn.
-  - apply Nat.eqb_eq in E. subst x. f_equal.
-    clear IH I N. induction l as [|y l IH]; cbn; [reflexivity|].
-    destruct (Nat.eqb y j) eqn:Ey; cbn.
-    + apply Nat.eqb_eq in Ey. subst. exfalso. apply Hx. left. reflexivity.
-    + f_equal. apply IH; [intros H; apply Hx; right; exact H|]. inversion Nl; assumption.
-  - f_equal. apply IH; [exact Nl|]. destruct I as [->|I]; [rewrite Nat.eqb_refl in E; discriminate|exact I].
-Qed.
-
-Lemma remove_id_nodup j l : NoDup l -> NoDup (remove_id j l).
-Proof. intros H. apply NoDup_filter. exact H. Qed.
-
 (* as many values handed to scripts (plus iterations in progress) as the channel released;
    nothing is handed out that the channel did not release *)
 Definition Weak (s : st) : Prop :=
-  length (delivered (seen s)) + length (pending s) = length (deq s) /\
-  NoDup (pending s) /\
+  length (delivered (seen s)) + length (iters s) = length (deq s) /\
+  NoDup (map fst (iters s)) /\
   (forall m, last s = Some m -> In m (map snd (deq s))) /\
-  (forall p, In p (delivered (seen s)) -> In (snd p) (map snd (deq s))).
+  (forall p, In p (delivered (seen s)) -> In (snd p) (map snd (deq s))) /\
+  (forall j ph m, In (j, (ph, m)) (iters s) -> In m (map snd (deq s))).
 
 Lemma weak_init c prog : Weak (init c prog).
-Proof. repeat split; cbn; try constructor; try discriminate; contradiction. Qed.
+Proof. unfold Weak; cbn. split; [reflexivity|]. split; [constructor|]. split; [discriminate|]. split; intros; contradiction. Qed.
+
+(* steps that only add an event which hands no value to a script *)
+Lemma weak_ext s s' e :
+  deq s' = deq s -> seen s' = seen s ++ [e] -> last s' = last s -> iters s' = iters s ->
+  delivered [e] = [] -> Weak s -> Weak s'.
+Proof.
+  intros Hd Hs Hl Hi De W. unfold Weak in *. rewrite Hd, Hs, Hl, Hi, delivered_app, De, app_nil_r. exact W.
+Qed.
+
+Lemma weak_rephase s j ph ph' m :
+  iter_of j (iters s) = Some (ph, m) -> NoDup (map fst (iters s)) ->
+  (forall j ph m, In (j, (ph, m)) (iters s) -> In m (map snd (deq s))) ->
+  length ((j, (ph', m)) :: drop_iter j (iters s)) = length (iters s) /\
+  NoDup (map fst ((j, (ph', m)) :: drop_iter j (iters s))) /\
+  (forall j0 ph0 m0, In (j0, (ph0, m0)) ((j, (ph', m)) :: drop_iter j (iters s)) -> In m0 (map snd (deq s))).
+Proof.
+  intros It N D. split; [cbn; apply (drop_iter_length _ _ _ N It)|]. split.
+  - cbn. constructor; [|apply nodup_keys_filter; exact N].
+    intros Hin. apply in_map_iff in Hin. destruct Hin as (p & Ep & Hp). apply drop_iter_in in Hp. destruct Hp as (_ & Ne). contradiction.
+  - intros j0 ph0 m0 [E|Hin].
+    + injection E as <- <- <-. eapply D. apply iter_of_some_in. exact It.
+    + apply drop_iter_in in Hin. eapply D. apply Hin.
+Qed.
 
 Lemma weak_step s a s' e : Weak s -> step s a = Some (s', e) -> Weak s'.
 Proof.
-  intros (L & N & La & D) H.
-  destruct a as [i|j|j|j|k| |i|j|j]; cbn in H.
-  - destruct (todo s i); [discriminate|]. destruct (closed s); [injection H as <- <-|destruct (room s); [injection H as <- <-|discriminate]];
-      unfold Weak, note; cbn; rewrite delivered_app; cbn; rewrite app_nil_r; repeat split; assumption.
-  - destruct (mem j (pending s)); [discriminate|]. destruct (buf s) as [|m r].
-    + destruct (closed s); [|discriminate]. injection H as <- <-. unfold Weak, note; cbn. rewrite delivered_app. cbn. rewrite app_nil_r. repeat split; assumption.
-    + injection H as <- <-. unfold Weak, note; cbn. rewrite delivered_app, map_app. cbn. rewrite !app_length. cbn. repeat split.
-      * lia.
-      * exact N.
-      * intros m' Hm. apply in_or_app. left. apply La. exact Hm.
-      * intros p Hp. apply in_app_or in Hp. apply in_or_app. destruct Hp as [Hp|[<-|[]]]; [left; apply D; exact Hp|right; left; reflexivity].
-  - destruct (mem j (pending s)) eqn:M; [discriminate|]. destruct (buf s) as [|m r].
-    + destruct (closed s); [|discriminate]. injection H as <- <-. unfold Weak, note; cbn. rewrite delivered_app. cbn. rewrite app_nil_r. repeat split; assumption.
-    + injection H as <- <-. unfold Weak, note; cbn. rewrite delivered_app, map_app. cbn. rewrite !app_length, app_nil_r. cbn. repeat split.
-      * lia.
-      * constructor; [apply mem_false; exact M|exact N].
-      * intros m' [= <-]. apply in_or_app. right. left. reflexivity.
-      * intros p Hp. apply in_or_app. left. apply D. exact Hp.
-  - destruct (mem j (pending s)) eqn:M; [|discriminate]. destruct (last s) as [m|] eqn:El; [|discriminate]. injection H as <- <-.
-    unfold Weak, note; cbn. rewrite delivered_app. cbn. rewrite app_length. cbn. repeat split.
-    + apply mem_true in M. pose proof (remove_id_length j _ N M). lia.
-    + apply remove_id_nodup. exact N.
-    + exact La.
-    + intros p Hp. apply in_app_or in Hp. destruct Hp as [Hp|[<-|[]]]; [apply D; exact Hp|]. cbn. apply La. reflexivity.
-  - injection H as <- <-. unfold Weak, note; cbn. rewrite delivered_app. destruct (closed s); cbn; rewrite app_nil_r; repeat split; assumption.
-  - injection H as <- <-. unfold Weak, note; cbn. rewrite delivered_app. cbn; rewrite app_nil_r; repeat split; assumption.
-  - destruct (cancelled s); [|discriminate]. destruct (todo s i); [discriminate|]. injection H as <- <-.
-    unfold Weak, note; cbn. rewrite delivered_app. cbn; rewrite app_nil_r; repeat split; assumption.
-  - destruct (cancelled s && negb (mem j (pending s))); [|discriminate]. injection H as <- <-.
-    unfold Weak, note; cbn. rewrite delivered_app. cbn; rewrite app_nil_r; repeat split; assumption.
-  - destruct (cancelled s && negb (mem j (pending s))); [|discriminate]. injection H as <- <-.
-    unfold Weak, note; cbn. rewrite delivered_app. cbn; rewrite app_nil_r; repeat split; assumption.
+  intros W H. destruct a as [i|j|j|j|j|j|k| |i|j|j]; destr_step H;
+    try (eapply weak_ext; [..|exact W]; reflexivity).
+  - (* Recv value *)
+    destruct W as (L & N & La & D & I). unfold Weak; cbn. rewrite delivered_app, map_app. cbn. rewrite !app_length. cbn.
+    split; [lia|]. split; [exact N|]. split; [|split].
+    + intros m' Hm. apply in_or_app. left. apply La. exact Hm.
+    + intros q Hq. apply in_app_or in Hq. apply in_or_app. destruct Hq as [Hq|[<-|[]]]; [left; apply D; exact Hq|right; left; reflexivity].
+    + intros j0 ph0 m0 Hin. apply in_or_app. left. eapply I. exact Hin.
+  - (* Next value *)
+    destruct W as (L & N & La & D & I). unfold Weak; cbn. rewrite delivered_app, map_app. cbn. rewrite !app_length, app_nil_r. cbn.
+    split; [lia|]. split; [|split; [|split]].
+    + constructor; [|exact N]. apply iter_of_none_notin. apply busy_false. assumption.
+    + intros m' Hm. apply in_or_app. left. apply La. exact Hm.
+    + intros q Hq. apply in_or_app. left. apply D. exact Hq.
+    + intros j0 ph0 m0 [E|Hin]; apply in_or_app; [right; injection E as _ _ <-; left; reflexivity|left; eapply I; exact Hin].
+  - (* Store *)
+    destruct W as (L & N & La & D & I).
+    match goal with It : iter_of j (iters s) = Some (Got, ?m) |- _ => destruct (weak_rephase s j Got Stored m It N I) as (Le & Nd & I') end.
+    unfold Weak; cbn [seen deq last iters]. rewrite delivered_app. cbn [delivered]. rewrite app_nil_r, Le.
+    split; [exact L|]. split; [exact Nd|]. split; [|split; [exact D|exact I']].
+    intros m' [= <-]. eapply I. apply iter_of_some_in. eassumption.
+  - (* Count *)
+    destruct W as (L & N & La & D & I).
+    match goal with It : iter_of j (iters s) = Some (Stored, ?m) |- _ => destruct (weak_rephase s j Stored Counted m It N I) as (Le & Nd & I') end.
+    unfold Weak; cbn [seen deq last iters]. rewrite delivered_app. cbn [delivered]. rewrite app_nil_r, Le.
+    split; [exact L|]. split; [exact Nd|]. split; [exact La|split; [exact D|exact I']].
+  - (* Entry *)
+    destruct W as (L & N & La & D & I).
+    match goal with It : iter_of j (iters s) = Some (Counted, ?m) |- _ => pose proof (drop_iter_length _ _ _ N It) as Le end.
+    match goal with E : last s = Some _ |- _ => rewrite E in La end.
+    unfold Weak; cbn [seen deq last iters]. rewrite delivered_app. cbn [delivered]. rewrite app_length. cbn [length].
+    split; [lia|]. split; [apply nodup_keys_filter; exact N|]. split; [exact La|]. split.
+    + intros q Hq. apply in_app_or in Hq. destruct Hq as [Hq|[<-|[]]]; [apply D; exact Hq|]. cbn. apply La. reflexivity.
+    + intros j0 ph0 m0 Hin. apply drop_iter_in in Hin. eapply I. apply Hin.
 Qed.
 
 Theorem weak_all_schedules prog c sch s : run (init c prog) sch = Some s -> Weak s.
@@ -219,73 +295,112 @@ Proof. apply (run_invariant Weak); [apply weak_step|apply weak_init]. Qed.
 (* ------------------------------------------------------------------ 3. exactly-once delivery when iterations do not overlap *)
 
 Definition guard_ok (s : st) (a : act) : bool :=
-  match a with Next _ => is_nil (pending s) | _ => true end.
+  match a with Next _ => is_nil (iters s) | _ => true end.
 
-(* per receiver: what its script has been handed, plus the value it holds between Next and Entry,
-   is exactly what the channel released to it, in order; range keys count 0,1,2,... *)
+Definition counted (l : list (nat * (phase * (nat * N)))) : nat :=
+  length (filter (fun p => match fst (snd p) with Counted => true | _ => false end) l).
+
+(* per receiver: what its script has been handed, plus the value it holds inside ForIter, is exactly
+   what the channel released to it, in order; range keys count 0,1,2,... *)
 Definition Excl (s : st) : Prop :=
   (forall j, by_key j (deq s) = by_key j (delivered (seen s)) ++ held s j) /\
-  length (pending s) <= 1 /\
-  rxcount s = length (entry_keys (seen s)) + length (pending s) /\
+  length (iters s) <= 1 /\
+  (forall j ph m, iter_of j (iters s) = Some (ph, m) -> ph <> Got -> last s = Some m) /\
+  rxcount s = length (entry_keys (seen s)) + counted (iters s) /\
   entry_keys (seen s) = seq 0 (length (entry_keys (seen s))).
 
 Lemma excl_init c prog : Excl (init c prog).
-Proof. repeat split; cbn; auto. Qed.
+Proof. unfold Excl; cbn. repeat split; auto. intros j ph m H. discriminate. Qed.
 
 Lemma excl_ext s s' e :
-  deq s' = deq s -> seen s' = seen s ++ [e] -> last s' = last s -> pending s' = pending s ->
+  deq s' = deq s -> seen s' = seen s ++ [e] -> last s' = last s -> iters s' = iters s ->
   rxcount s' = rxcount s -> delivered [e] = [] -> entry_keys [e] = [] -> Excl s -> Excl s'.
 Proof.
-  intros Hd Hs Hl Hp Hr De Ke (A & B & C & D). unfold Excl, held.
-  rewrite Hd, Hs, Hl, Hp, Hr, delivered_app, entry_keys_app, De, Ke, !app_nil_r. repeat split; assumption.
+  intros Hd Hs Hl Hp Hr De Ke X. unfold Excl, held in *.
+  rewrite Hd, Hs, Hl, Hp, Hr, delivered_app, entry_keys_app, De, Ke, !app_nil_r. exact X.
 Qed.
 
-Lemma held_not_pending s j : mem j (pending s) = false -> held s j = [].
-Proof. unfold held. intros ->. reflexivity. Qed.
+Lemma iters_single s j x : length (iters s) <= 1 -> iter_of j (iters s) = Some x -> iters s = [(j, x)].
+Proof.
+  intros L H. destruct (iters s) as [|(k, y) [|q r]]; cbn in L; [discriminate| |lia].
+  destruct (Nat.eq_dec k j) as [->|Ne].
+  - rewrite iter_of_cons_same in H. injection H as <-. reflexivity.
+  - rewrite (iter_of_cons_other _ Ne) in H. discriminate.
+Qed.
+
+Lemma drop_single j (x : phase * (nat * N)) : drop_iter j [(j, x)] = [].
+Proof. unfold drop_iter, is_key. cbn. rewrite Nat.eqb_refl. reflexivity. Qed.
+
+Lemma held_single s j k x : iters s = [(j, x)] -> held s k = if Nat.eqb j k then [snd x] else [].
+Proof.
+  intros E. unfold held. rewrite E. destruct (Nat.eqb j k) eqn:Ek.
+  - apply Nat.eqb_eq in Ek. subst k. rewrite iter_of_cons_same. destruct x; reflexivity.
+  - apply Nat.eqb_neq in Ek. rewrite (iter_of_cons_other _ Ek). reflexivity.
+Qed.
 
 Lemma excl_step s a s' e : Excl s -> guard_ok s a = true -> step s a = Some (s', e) -> Excl s'.
 Proof.
-  intros X G H. destruct a as [i|j|j|j|k| |i|j|j]; cbn in H.
-  - destruct (todo s i); [discriminate|].
-    destruct (closed s); [injection H as <- <-|destruct (room s); [injection H as <- <-|discriminate]];
-      (eapply excl_ext; [..|exact X]; reflexivity).
-  - destruct (mem j (pending s)) eqn:M; [discriminate|]. destruct (buf s) as [|m r].
-    + destruct (closed s); [|discriminate]. injection H as <- <-. eapply excl_ext; [..|exact X]; reflexivity.
-    + injection H as <- <-. destruct X as (A & B & C & D). unfold Excl, held. cbn.
-      rewrite delivered_app, entry_keys_app. cbn. rewrite app_nil_r. repeat split; try assumption.
-      intros k. rewrite !by_key_app. specialize (A k). unfold held in A. destruct (Nat.eq_dec j k) as [->|Ne].
-      * rewrite M in *. rewrite app_nil_r in *. rewrite A. reflexivity.
-      * rewrite (by_key_one_other k j) by exact Ne. rewrite !app_nil_r. exact A.
-  - destruct (mem j (pending s)) eqn:M; [discriminate|]. destruct (buf s) as [|m r].
-    + destruct (closed s); [|discriminate]. injection H as <- <-. eapply excl_ext; [..|exact X]; reflexivity.
-    + injection H as <- <-. destruct X as (A & B & C & D). cbn in G.
-      destruct (pending s) as [|p ps] eqn:P; [|discriminate]. unfold Excl, held. cbn.
-      rewrite delivered_app, entry_keys_app. cbn. rewrite !app_nil_r. repeat split; try assumption; try (cbn in *; lia).
-      intros k. rewrite by_key_app. specialize (A k). unfold held in A. rewrite P in A. unfold mem in A. cbn in A.
-      rewrite app_nil_r in A. unfold mem. cbn. rewrite orb_false_r. destruct (Nat.eqb k j) eqn:E.
-      * apply Nat.eqb_eq in E. subst k. rewrite by_key_one_same, A. reflexivity.
-      * apply Nat.eqb_neq in E. rewrite by_key_one_other by congruence. rewrite !app_nil_r. exact A.
-  - destruct (mem j (pending s)) eqn:M; [|discriminate]. destruct (last s) as [m|] eqn:El; [|discriminate]. injection H as <- <-.
-    destruct X as (A & B & C & D).
-    assert (P : pending s = [j]).
-    { destruct (pending s) as [|p [|q ps]]; cbn in B; [discriminate| |lia].
-      unfold mem in M. cbn in M. rewrite orb_false_r in M. apply Nat.eqb_eq in M. subst. reflexivity. }
-    assert (Rm : remove_id j [j] = []). { unfold remove_id. cbn. rewrite Nat.eqb_refl. reflexivity. }
-    unfold Excl, held. cbn. rewrite P, Rm in *.
-    rewrite delivered_app, entry_keys_app. cbn. rewrite app_length. cbn in *. repeat split; try lia.
-    + intros k. rewrite by_key_app. specialize (A k). unfold held in A. rewrite El, P in A.
-      unfold mem in *. cbn in A. rewrite orb_false_r in A. cbn. rewrite app_nil_r. destruct (Nat.eqb k j) eqn:E.
-      * apply Nat.eqb_eq in E. subst k. rewrite by_key_one_same. exact A.
-      * apply Nat.eqb_neq in E. rewrite by_key_one_other by congruence. rewrite app_nil_r in *. exact A.
-    + rewrite seq_app. cbn. rewrite <- D. f_equal. f_equal. lia.
-  - injection H as <- <-. eapply excl_ext; [..|exact X]; try reflexivity; destruct (closed s); reflexivity.
-  - injection H as <- <-. eapply excl_ext; [..|exact X]; reflexivity.
-  - destruct (cancelled s); [|discriminate]. destruct (todo s i); [discriminate|]. injection H as <- <-.
-    eapply excl_ext; [..|exact X]; reflexivity.
-  - destruct (cancelled s && negb (mem j (pending s))); [|discriminate]. injection H as <- <-.
-    eapply excl_ext; [..|exact X]; reflexivity.
-  - destruct (cancelled s && negb (mem j (pending s))); [|discriminate]. injection H as <- <-.
-    eapply excl_ext; [..|exact X]; reflexivity.
+  intros X G H. destruct a as [i|j|j|j|j|j|k| |i|j|j]; destr_step H;
+    try (eapply excl_ext; [..|exact X]; reflexivity).
+  - (* Recv value *)
+    destruct X as (A & B & Cc & D & K). unfold Excl, held. cbn.
+    rewrite delivered_app, entry_keys_app. cbn. rewrite app_nil_r. split; [|repeat split; assumption].
+    intros k. rewrite !by_key_app. specialize (A k). unfold held in A. destruct (Nat.eq_dec j k) as [->|Ne].
+    + match goal with Bz : busy k s = false |- _ => apply busy_false in Bz; rewrite Bz in * end.
+      rewrite app_nil_r in *. rewrite A. reflexivity.
+    + rewrite (by_key_one_other k j) by exact Ne. rewrite !app_nil_r. exact A.
+  - (* Next value *)
+    destruct X as (A & B & Cc & D & K). cbn in G. destruct (iters s) as [|q qs] eqn:P; [|discriminate].
+    unfold Excl, held. cbn. rewrite delivered_app, entry_keys_app. cbn. rewrite !app_nil_r.
+    split; [|split; [cbn; lia|split; [|split; [exact D|exact K]]]].
+    + intros k. rewrite by_key_app. specialize (A k). unfold held in A. rewrite P, iter_of_nil, app_nil_r in A.
+      destruct (Nat.eq_dec j k) as [->|Ne].
+      * rewrite iter_of_cons_same, by_key_one_same, A. reflexivity.
+      * rewrite (iter_of_cons_other _ Ne), iter_of_nil, by_key_one_other by exact Ne. rewrite !app_nil_r. exact A.
+    + intros k ph m Hk Hg. destruct (Nat.eq_dec j k) as [->|Ne].
+      * rewrite iter_of_cons_same in Hk. injection Hk as <- _. contradiction.
+      * rewrite (iter_of_cons_other _ Ne), iter_of_nil in Hk. discriminate.
+  - (* Store *)
+    destruct X as (A & B & Cc & D & K).
+    match goal with It : iter_of j (iters s) = Some (Got, ?m) |- _ => pose proof (iters_single s j _ B It) as P; rename m into m0 end.
+    unfold Excl. cbn [deq seen last iters rxcount]. rewrite P, drop_single, delivered_app, entry_keys_app. cbn [delivered entry_keys]. rewrite !app_nil_r.
+    split; [|split; [cbn; lia|split; [|split; [|exact K]]]].
+    + intros k. specialize (A k). rewrite (held_single s j k _ P) in A. unfold held. cbn [iters].
+      destruct (Nat.eq_dec j k) as [->|Ne].
+      * rewrite iter_of_cons_same. rewrite Nat.eqb_refl in A. exact A.
+      * rewrite (iter_of_cons_other _ Ne), iter_of_nil. apply Nat.eqb_neq in Ne. rewrite Ne in A. exact A.
+    + intros k ph m Hk _. destruct (Nat.eq_dec j k) as [->|Ne].
+      * rewrite iter_of_cons_same in Hk. injection Hk as _ <-. reflexivity.
+      * rewrite (iter_of_cons_other _ Ne), iter_of_nil in Hk. discriminate.
+    + rewrite P in D. cbn in D. cbn. exact D.
+  - (* Count *)
+    destruct X as (A & B & Cc & D & K).
+    match goal with It : iter_of j (iters s) = Some (Stored, ?m) |- _ =>
+      pose proof (iters_single s j _ B It) as P; pose proof (Cc j Stored m It ltac:(discriminate)) as Lm; rename m into m0 end.
+    unfold Excl. cbn [deq seen last iters rxcount]. rewrite P, drop_single, delivered_app, entry_keys_app. cbn [delivered entry_keys]. rewrite !app_nil_r.
+    split; [|split; [cbn; lia|split; [|split; [|exact K]]]].
+    + intros k. specialize (A k). rewrite (held_single s j k _ P) in A. unfold held. cbn [iters].
+      destruct (Nat.eq_dec j k) as [->|Ne].
+      * rewrite iter_of_cons_same. rewrite Nat.eqb_refl in A. exact A.
+      * rewrite (iter_of_cons_other _ Ne), iter_of_nil. apply Nat.eqb_neq in Ne. rewrite Ne in A. exact A.
+    + intros k ph m Hk _. destruct (Nat.eq_dec j k) as [->|Ne].
+      * rewrite iter_of_cons_same in Hk. injection Hk as _ <-. exact Lm.
+      * rewrite (iter_of_cons_other _ Ne), iter_of_nil in Hk. discriminate.
+    + rewrite P in D. cbn in D. cbn. lia.
+  - (* Entry *)
+    destruct X as (A & B & Cc & D & K).
+    match goal with It : iter_of j (iters s) = Some (Counted, ?m) |- _ =>
+      pose proof (iters_single s j _ B It) as P; pose proof (Cc j Counted m It ltac:(discriminate)) as Lm; rename m into m0 end.
+    match goal with E : last s = Some ?q |- _ => lazymatch q with m0 => fail | _ => assert (q = m0) by congruence; subst q end end.
+    unfold Excl. cbn [deq seen last iters rxcount]. rewrite P, drop_single, delivered_app, entry_keys_app. cbn [delivered entry_keys].
+    rewrite app_length. cbn [length]. rewrite P in D. cbn in D.
+    split; [|split; [cbn; lia|split; [|split; [cbn; lia|]]]].
+    + intros k. specialize (A k). rewrite (held_single s j k _ P) in A. unfold held. cbn [iters]. rewrite iter_of_nil, app_nil_r, by_key_app.
+      destruct (Nat.eq_dec j k) as [->|Ne].
+      * rewrite Nat.eqb_refl in A. rewrite by_key_one_same. exact A.
+      * rewrite by_key_one_other by exact Ne. apply Nat.eqb_neq in Ne. rewrite Ne in A. exact A.
+    + intros k ph m Hk _. rewrite iter_of_nil in Hk. discriminate.
+    + rewrite seq_app. cbn. rewrite <- K. f_equal. f_equal. lia.
 Qed.
 
 Lemma excl_run sch : forall s s', Excl s -> exclusive s sch = true -> run s sch = Some s' -> Excl s'.
@@ -303,29 +418,24 @@ Proof. intros R G. eapply excl_run; [apply excl_init|exact G|exact R]. Qed.
 
 (* at most one receiver iterates => iterations never overlap *)
 Lemma single_exclusive j0 sch : forall s,
-  (forall j, In j (pending s) -> j = j0) -> single_iter j0 sch = true -> exclusive s sch = true.
+  (forall j, In j (map fst (iters s)) -> j = j0) -> single_iter j0 sch = true -> exclusive s sch = true.
 Proof.
   induction sch as [|a r IH]; intros s P S; cbn in *; [reflexivity|].
   apply andb_prop in S. destruct S as (Sa & Sr).
   destruct (step s a) as [(s1, e)|] eqn:E; [|reflexivity].
   apply andb_true_intro. split.
   - destruct a; try reflexivity. apply Nat.eqb_eq in Sa. subst j. cbn in E.
-    destruct (mem j0 (pending s)) eqn:M; [discriminate|]. apply mem_false in M.
-    destruct (pending s) as [|p ps]; [reflexivity|]. exfalso. apply M. left. apply P. left. reflexivity.
+    destruct (busy j0 s) eqn:M; [discriminate|]. apply busy_false in M. apply iter_of_none_notin in M.
+    destruct (iters s) as [|q qs]; [reflexivity|]. exfalso. apply M. left. apply P. left. reflexivity.
   - apply IH; [|exact Sr]. intros j Hj.
-    destruct a as [i|k|k|k|k| |i|k|k]; cbn in E.
-    + destruct (todo s i); [discriminate|]. destruct (closed s); [injection E as <- <-|destruct (room s); [injection E as <- <-|discriminate]]; apply P; exact Hj.
-    + destruct (mem k (pending s)); [discriminate|]. destruct (buf s); [destruct (closed s); [|discriminate]|]; injection E as <- <-; apply P; exact Hj.
-    + apply Nat.eqb_eq in Sa. subst k. destruct (mem j0 (pending s)); [discriminate|].
-      destruct (buf s); [destruct (closed s); [|discriminate]|]; injection E as <- <-; cbn in Hj; [apply P; exact Hj|].
-      destruct Hj as [<-|Hj]; [reflexivity|apply P; exact Hj].
-    + destruct (mem k (pending s)); [|discriminate]. destruct (last s); [|discriminate]. injection E as <- <-.
-      cbn in Hj. unfold remove_id in Hj. apply filter_In in Hj. apply P. apply Hj.
-    + injection E as <- <-. apply P; exact Hj.
-    + injection E as <- <-. apply P; exact Hj.
-    + destruct (cancelled s); [|discriminate]. destruct (todo s i); [discriminate|]. injection E as <- <-. apply P; exact Hj.
-    + destruct (cancelled s && negb (mem k (pending s))); [|discriminate]. injection E as <- <-. apply P; exact Hj.
-    + destruct (cancelled s && negb (mem k (pending s))); [|discriminate]. injection E as <- <-. apply P; exact Hj.
+    destruct a as [i|k|k|k|k|k|k| |i|k|k]; destr_step E; cbn in Hj; try (apply P; exact Hj);
+      try (apply Nat.eqb_eq in Sa; subst k).
+    + destruct Hj as [<-|Hj]; [reflexivity|apply P; exact Hj].
+    + destruct Hj as [<-|Hj]; [reflexivity|]. apply in_map_iff in Hj. destruct Hj as (q & <- & Hp).
+      apply drop_iter_in in Hp. apply P. apply in_map. apply Hp.
+    + destruct Hj as [<-|Hj]; [reflexivity|]. apply in_map_iff in Hj. destruct Hj as (q & <- & Hp).
+      apply drop_iter_in in Hp. apply P. apply in_map. apply Hp.
+    + apply in_map_iff in Hj. destruct Hj as (q & <- & Hp). apply drop_iter_in in Hp. apply P. apply in_map. apply Hp.
 Qed.
 
 Lemma single_exclusive_init j0 c prog sch : single_iter j0 sch = true -> exclusive (init c prog) sch = true.
@@ -334,26 +444,26 @@ Proof. apply single_exclusive. intros j []. Qed.
 (* ------------------------------------------------------------------ 4. closed and drained: nil, end of iteration, for ever *)
 
 Lemma recv_closed_drained s j :
-  closed s = true -> buf s = [] -> mem j (pending s) = false ->
+  closed s = true -> buf s = [] -> busy j s = false ->
   step s (Recv j) = Some (note s (EvRecvNil j), EvRecvNil j).
 Proof. intros C B M. cbn. rewrite M, B, C. reflexivity. Qed.
 
 Lemma recv_nil_only_when s j s' :
   step s (Recv j) = Some (s', EvRecvNil j) -> closed s = true /\ buf s = [] /\ s' = note s (EvRecvNil j).
 Proof.
-  cbn. destruct (mem j (pending s)); [discriminate|]. destruct (buf s); [|discriminate].
+  cbn. destruct (busy j s); [discriminate|]. destruct (buf s); [|discriminate].
   destruct (closed s); [|discriminate]. intros [= <-]. repeat split.
 Qed.
 
 Lemma next_closed_drained s j :
-  closed s = true -> buf s = [] -> mem j (pending s) = false ->
+  closed s = true -> buf s = [] -> busy j s = false ->
   step s (Next j) = Some (note s (EvIterEnd j), EvIterEnd j).
 Proof. intros C B M. cbn. rewrite M, B, C. reflexivity. Qed.
 
 Lemma iter_end_only_when s j s' :
   step s (Next j) = Some (s', EvIterEnd j) -> closed s = true /\ buf s = [] /\ s' = note s (EvIterEnd j).
 Proof.
-  cbn. destruct (mem j (pending s)); [discriminate|]. destruct (buf s); [|discriminate].
+  cbn. destruct (busy j s); [discriminate|]. destruct (buf s); [|discriminate].
   destruct (closed s); [|discriminate]. intros [= <-]. repeat split.
 Qed.
 
@@ -362,7 +472,7 @@ Lemma open_or_nonempty_no_nil s j s' e :
   (closed s = false \/ buf s <> []) -> (step s (Recv j) = Some (s', e) \/ step s (Next j) = Some (s', e)) ->
   e <> EvRecvNil j /\ e <> EvIterEnd j.
 Proof.
-  intros O [H|H]; cbn in H; destruct (mem j (pending s)); try discriminate;
+  intros O [H|H]; cbn in H; destruct (busy j s); try discriminate;
     destruct (buf s) as [|m r]; try (injection H as <- <-; split; discriminate);
     destruct (closed s); try discriminate; destruct O as [O|O]; congruence.
 Qed.
@@ -374,16 +484,8 @@ Definition no_value (e : ev) : Prop :=
 
 Lemma drained_step s a s' e : Drained s -> step s a = Some (s', e) -> Drained s' /\ no_value e.
 Proof.
-  intros (C & B) H. destruct a as [i|j|j|j|k| |i|j|j]; cbn in H; rewrite ?C, ?B in H.
-  - destruct (todo s i); [discriminate|]. injection H as <- <-. repeat split; assumption.
-  - destruct (mem j (pending s)); [discriminate|]. injection H as <- <-. repeat split; assumption.
-  - destruct (mem j (pending s)); [discriminate|]. injection H as <- <-. repeat split; assumption.
-  - destruct (mem j (pending s)); [|discriminate]. destruct (last s); [|discriminate]. injection H as <- <-. repeat split; assumption.
-  - injection H as <- <-. repeat split; assumption.
-  - injection H as <- <-. repeat split; assumption.
-  - destruct (cancelled s); [|discriminate]. destruct (todo s i); [discriminate|]. injection H as <- <-. repeat split; assumption.
-  - destruct (cancelled s && negb (mem j (pending s))); [|discriminate]. injection H as <- <-. repeat split; assumption.
-  - destruct (cancelled s && negb (mem j (pending s))); [|discriminate]. injection H as <- <-. repeat split; assumption.
+  intros (C & B) H. destruct a as [i|j|j|j|j|j|k| |i|j|j]; cbn in H; rewrite ?C, ?B in H; destr_step H;
+    (split; [split; cbn; (assumption || reflexivity)|cbn; exact I]).
 Qed.
 
 Theorem drained_forever sch : forall s s' es,
@@ -401,15 +503,15 @@ Qed.
 
 Theorem guarded_delivery prog c sch s :
   run (init c prog) sch = Some s -> exclusive (init c prog) sch = true ->
-  buf s = [] -> pending s = [] ->
+  buf s = [] -> iters s = [] ->
   (forall i, from i (map snd (deq s)) ++ tag i (todo s i) = tag i (prog i)) /\
   (forall j, by_key j (delivered (seen s)) = by_key j (deq s)) /\
   entry_keys (seen s) = seq 0 (length (entry_keys (seen s))).
 Proof.
   intros R G B P. pose proof (fifo_all_schedules _ _ _ _ R) as I.
-  destruct (exclusive_exactly_once _ _ _ _ R G) as (A & _ & _ & K). repeat split.
+  destruct (exclusive_exactly_once _ _ _ _ R G) as (A & _ & _ & _ & K). repeat split.
   - intros i. specialize (I i). rewrite B, app_nil_r in I. exact I.
-  - intros j. specialize (A j). unfold held in A. rewrite P in A. unfold mem in A. cbn in A. rewrite app_nil_r in A. symmetry. exact A.
+  - intros j. specialize (A j). unfold held in A. rewrite P, iter_of_nil, app_nil_r in A. symmetry. exact A.
   - exact K.
 Qed.
 
@@ -424,28 +526,28 @@ Theorem iteration_complete prog c sch s j s' :
 Proof.
   intros R G H. pose proof (fifo_all_schedules _ _ _ _ R) as I.
   destruct (exclusive_exactly_once _ _ _ _ R G) as (A & _).
-  assert (M : mem j (pending s) = false).
-  { cbn in H. destruct (mem j (pending s)); [discriminate|reflexivity]. }
+  assert (M : busy j s = false).
+  { cbn in H. destruct (busy j s); [discriminate|reflexivity]. }
   destruct (iter_end_only_when _ _ _ H) as (C & B & _). repeat split.
   - exact C.
   - intros i. specialize (I i). rewrite B, app_nil_r in I. exact I.
-  - specialize (A j). rewrite (held_not_pending _ _ M), app_nil_r in A. symmetry. exact A.
+  - specialize (A j). unfold held in A. apply busy_false in M. rewrite M, app_nil_r in A. symmetry. exact A.
 Qed.
 
 (* ------------------------------------------------------------------ 6. refutation: two receivers range over one channel *)
 
-Definition prog2 : nat -> list val := fun i => if Nat.eqb i 0 then [10%N; 11%N] else [].
+Definition prog2 : nat -> list N := fun i => if Nat.eqb i 0 then [10%N; 11%N] else [].
 Definition sch_bad : list act :=
-  [Send 0; Send 0; Next 1; Next 2; Entry 1; Entry 2; Close 0; Next 1; Next 2].
+  [Send 0; Send 0; Next 1; Next 2; Store 1; Count 1; Store 2; Count 2; Entry 1; Entry 2; Close 0; Next 1; Next 2].
 
 Lemma range_multi_witness :
   exists s, run (init 2 prog2) sch_bad = Some s /\
-            buf s = [] /\ pending s = [] /\ (forall i, todo s i = []) /\
+            buf s = [] /\ iters s = [] /\ (forall i, todo s i = []) /\
             map snd (deq s) = [(0, 10%N); (0, 11%N)] /\
             delivered (seen s) = [(1, (0, 11%N)); (2, (0, 11%N))] /\
             multi_iter sch_bad = true /\ exclusive (init 2 prog2) sch_bad = false.
 Proof.
-  eexists. split; [vm_compute; reflexivity|]. cbn [buf pending todo deq seen].
+  eexists. split; [vm_compute; reflexivity|]. cbn [buf iters todo deq seen].
   repeat split; try reflexivity. intros i. unfold upd. destruct i; reflexivity.
 Qed.
 
@@ -594,7 +696,7 @@ Proof. reflexivity. Qed.
    the multiset of values of the senders' programs *)
 Theorem guarded_multiset prog c sch s n :
   run (init c prog) sch = Some s -> exclusive (init c prog) sch = true ->
-  buf s = [] -> pending s = [] -> (forall i, todo s i = []) -> (forall i, n <= i -> prog i = []) ->
+  buf s = [] -> iters s = [] -> (forall i, todo s i = []) -> (forall i, n <= i -> prog i = []) ->
   Permutation (payloads (map snd (delivered (seen s)))) (flat_map prog (seq 0 n)).
 Proof.
   intros R G B P T Z. destruct (guarded_delivery _ _ _ _ R G B P) as (F & D & _).
